@@ -18,7 +18,7 @@ EXTENDS Codec
 VARIABLES used, cfg, ncalls
 apiVars == <<used, cfg, ncalls>>
 
-ApiInit == used = {} /\ cfg = <<>> /\ ncalls = 0
+ApiInit == used = {} /\ cfg = {} /\ ncalls = 0
 
 \* protocol-exception type ids (Thrift TProtocolException)
 INVALID_DATA == 1
@@ -62,6 +62,11 @@ ClauseProp ==
     rej_nowrite    |-> {"C13"},
     rej_nostore    |-> {"C13"},
     rej_stable     |-> {"C13"},
+    legacy_ok      |-> {"C17"},
+    legacy_ret     |-> {"C17"},
+    alloc_ok       |-> {"C18"},
+    alloc_size     |-> {"C18"},
+    alloc_enc      |-> {"C18"},
     rt_ok          |-> {"C01"},
     rt_n           |-> {"C01"},
     rt_val         |-> {"C01"} ]
@@ -175,6 +180,24 @@ JReject(line, prev) ==
             If(obs.dpre = obs.dpost, "rej_nostore") \cup
             If(prev = "" \/ prev = RejSig(obs), "rej_stable")) ]
 
+\* ---- legacy JIT controls (C17) ----------------------------------------------------
+\* Their own contract: Pretouch accepts anything and returns nil, the setters return their
+\* argument, the statistics are zero.  That no codec result depends on them is stated by the
+\* structure of this module: no J* operator reads cfg.
+JLegacy(line) ==
+  LET obs == line.obs IN
+  [ cls |-> "Legacy/" \o line.call \o ">" \o obs.out,
+    fail |-> IF obs.out # "ok" THEN {"legacy_ok"}
+             ELSE If(line.call \notin {"SetMaxInlineDepth", "SetMaxInlineILSize"} \/ obs.ret = line.arg, "legacy_ret") \cup
+                  If(obs.zero, "legacy_ret") ]
+
+\* ---- allocation-free encoding after first use (C18) --------------------------------
+JAllocs(line) ==
+  LET obs == line.obs IN
+  [ cls |-> "Allocs>" \o obs.out,
+    fail |-> IF obs.out # "ok" THEN {"alloc_ok"}
+             ELSE If(obs.size_mallocs < line.calls, "alloc_size") \cup If(obs.enc_mallocs < line.calls, "alloc_enc") ]
+
 \* round trip (C01): the decode of frugal's own output for value orig
 FailRoundTrip(ty, orig, in, obs) ==
   IF obs.out # "ok" THEN {"rt_ok"}
@@ -182,6 +205,8 @@ FailRoundTrip(ty, orig, in, obs) ==
 
 \* ---- actions ---------------------------------------------------------------
 Call(ty) == used' = used \cup {ty} /\ ncalls' = ncalls + 1 /\ UNCHANGED cfg
+\* a legacy control: recorded in cfg, which nothing ever reads
+LegacyCall(c) == cfg' = cfg \cup {c} /\ UNCHANGED <<used, ncalls>>
 
 SizeOK(ty, val, obs)            == FailSize(ty, val, obs) = {} /\ Call(ty)
 EncodeOK(ty, val, buflen, obs)  == FailEncode(ty, val, buflen, obs) = {} /\ Call(ty)
